@@ -1205,7 +1205,12 @@ impl<'de, 'e> de::Deserializer<'de> for YamlDeserializer<'de, 'e> {
                 }
 
                 // Consume the scalar and attempt typed parses in order: bool -> int -> float.
-                let (s, tag, location) = self.take_scalar_event()?;
+                // The text is kept as the parser handed it over: a plain scalar that turns out
+                // to be a string is lent (`visit_borrowed_str`) when it sits verbatim in the
+                // input, as a quoted one is - serde's buffering for untagged / flattened types
+                // can then still fill a `&str` field from it.
+                let (cow, tag, location) = self.take_scalar_cow_event()?;
+                let s: &str = cow.as_ref();
 
                 // Try booleans.
                 if self.cfg.strict_booleans {
@@ -1216,7 +1221,7 @@ impl<'de, 'e> de::Deserializer<'de> for YamlDeserializer<'de, 'e> {
                         return visitor.visit_bool(false);
                     }
                     // otherwise not a bool in strict mode; continue to numbers/float/string
-                } else if let Ok(b) = parse_yaml11_bool(&s) {
+                } else if let Ok(b) = parse_yaml11_bool(s) {
                     return visitor.visit_bool(b);
                 }
 
@@ -1244,7 +1249,7 @@ impl<'de, 'e> de::Deserializer<'de> for YamlDeserializer<'de, 'e> {
 
                 // Try float per YAML 1.2 forms.
                 if let Ok(v) =
-                    parse_yaml12_float::<f64>(&s, location, tag, self.cfg.angle_conversions)
+                    parse_yaml12_float::<f64>(s, location, tag, self.cfg.angle_conversions)
                 {
                     // serde_json::Value (and possibly other typeless consumers) cannot represent
                     // non-finite floats. In `deserialize_any`, prefer returning a canonical string
@@ -1265,7 +1270,10 @@ impl<'de, 'e> de::Deserializer<'de> for YamlDeserializer<'de, 'e> {
                 }
 
                 // Fallback: treat as string as-is.
-                visitor.visit_string(s)
+                match cow {
+                    Cow::Borrowed(b) => visitor.visit_borrowed_str(b),
+                    Cow::Owned(s) => visitor.visit_string(s),
+                }
             }
             Some(Ev::SeqStart { .. }) => self.deserialize_seq(visitor),
             Some(Ev::MapStart { .. }) => self.deserialize_map(visitor),
